@@ -112,6 +112,12 @@ def plan(tier, seed):
         {'tag': 'q', 'indent': 2, 'children': [{'interp': {'pipe': [L(4), L(5)]}}]}, 'B']}
     jobs.append({'prog': two, 'vars': [[k, 'out', k] for k in (0, 1, 2)] + [[4, 'out', 4]]
                  if quick else [[k, 'out', k] for k in range(6)], 'label': 'two-sites'})
+    # after a case has matched, the expressions of the later cases are not evaluated (and cannot fail)
+    mc = {'tag': 'div', 'close_indent': 0, 'children': ['A', {'tag': 'p', 'switch': py('sv'), 'children': [
+        {'tag': 'a', 'case': L(0), 'children': ['zero']}, {'tag': 'b', 'case': L(1), 'children': ['one']},
+        {'tag': 'c', 'case': py('default'), 'children': ['dflt']}, {'tag': 'd', 'case': L(2), 'children': ['late']}]}, 'B']}
+    jobs.append({'prog': mc, 'vars': [['sv', 'int', 3], [0, 'out', 0], [1, 'out', 1], [2, 'out', 2], [0, 'lconst', 0], [1, 'lconst', 1], [2, 'lconst', 2]],
+                 'label': 'multi-case'})
     # an element that is replaced never evaluates its omit-tag expression; with `default` it does, once
     orp = {'tag': 'div', 'close_indent': 0, 'children': [
         'A', {'tag': 'p', 'omit': L(0), 'replace': ['text', {'pipe': [L(1), py('default')]}], 'children': ['x']}, 'B']}
